@@ -8,7 +8,7 @@
 From Coq Require Import ZArith List Bool Permutation.
 Import ListNotations.
 Require Import MV.C20.Model MV.C20.Gen MV.C20.Run MV.C20.Spec.
-Require Import MV.C20.Proofs_Base MV.C20.Proofs_Heap MV.C20.Proofs_PQ MV.C20.Proofs_UF MV.C20.Proofs_Init.
+Require Import MV.C20.Proofs_Base MV.C20.Proofs_Heap MV.C20.Proofs_PQ MV.C20.Proofs_UF MV.C20.Proofs_Init MV.C20.Proofs_Check MV.C20.Proofs_Compress.
 
 (* 1. structural invariant along every history: array lengths agree, elements distinct, parents in range,
       n_elts = _next = |_elts|, the dict _indx maps each element to its position (lookup = index_of), the parent
@@ -83,15 +83,39 @@ Theorem C20_uf_views : forall (l : list Z) (h : list op),
 Proof. exact uf_views_from. Qed.
 Print Assumptions C20_uf_views.
 
-(* 4b. the constructor GENERATED from UnionFind.__init__ (Gen.v: uf_new, uf_init_none, uf_init) is the model's:
+(* 4b. `add` GENERATED from UnionFind.add by symbolic execution (Gen.v: uf_add) is the model's add, and
+       the constructor GENERATED from UnionFind.__init__ (Gen.v: uf_new, uf_init_none, uf_init) is the model's:
        all seven fields start empty / zero, None stands for the empty container, and every element of the
        container goes through `add`; the elements of the constructor are present afterwards. *)
 Theorem C20_uf_constructor :
   (uf_new = uf_empty /\ uf_init_none = [] /\
+   (forall (s : uf) (x : Z), uf_add s x = add s x) /\
    forall l : list Z, uf_init l = init_from l /\ uf_init l = reach_from l []) /\
   (forall l h x, present (full l h) x <-> In x l \/ present h x).
 Proof. exact (conj uf_constructor present_full). Qed.
 Print Assumptions C20_uf_constructor.
+
+(* 4c. path compression is free: replace the parent array of any reachable state by ANY array obtained through
+       parent-to-grandparent shortcuts (path halving as in the code, path splitting, full compression are all
+       sequences of such steps): the state is still well-formed and find / connected / component / roots /
+       components / component_mapping answer exactly the same; the loop of `find` is such a compression. *)
+Theorem C20_uf_compression_free :
+  (forall (l : list Z) (h : list op) (p' : list nat),
+     let s := reach_from l h in
+     compress (par s) p' ->
+     let s2 := with_par s p' in
+     uf_wf s2 /\
+     (forall x, answer (find s2 x) = answer (find s x)) /\
+     (forall x y, answer (connected s2 x y) = answer (connected s x y)) /\
+     (forall x y, same_comp s2 x y = same_comp s x y) /\
+     (forall x, answer (component s2 x) = answer (component s x)) /\
+     answer (roots s2) = answer (roots s) /\
+     answer (components s2) = answer (components s) /\
+     answer (mapping s2) = answer (mapping s) /\
+     (forall i, i < length (elts s) -> root_of s2 i = root_of s i)) /\
+  (forall k p i p' r0, find_loop k p i = Some (p', r0) -> compress p p').
+Proof. exact (conj uf_compression_free find_loop_compress). Qed.
+Print Assumptions C20_uf_compression_free.
 
 (* 5. heapq, any comparator: push adds exactly the pushed item, pop removes exactly the item it hands out,
       and fails (IndexError) exactly on the empty heap. *)
@@ -139,3 +163,13 @@ Theorem C20_pq_history : forall ops : list qop,
   (forall it d', pq_pop d = Some (it, d') -> pq_front d = Some it).
 Proof. exact pq_history. Qed.
 Print Assumptions C20_pq_history.
+
+(* 9. the queue checker evaluated by the correspondence batches (Run.check_pq, over the GENERATED comparator, push
+      and emptiness test) accepts a history of observations exactly when it is a run of the multiset specification
+      the property states: push adds the item; pop/get/front hand out ANY pending item of minimum priority, whatever
+      the tie-break; pop removes exactly that item; "no item" exactly when nothing is pending; empty() says whether
+      nothing is pending. *)
+Theorem C20_pq_checker_exact :
+  forall h : list (qop * qobs * list item), check_pq h = true <-> bag_run [] h.
+Proof. exact pq_checker_exact. Qed.
+Print Assumptions C20_pq_checker_exact.
